@@ -1305,3 +1305,19 @@ mutant("c14-last-block-dropped", "C14", (I, """        if component and block:
             self._process(component, block, engine)
         return engine""", """        return engine"""), "T13/FllImporter.engine/flush")
 mutant("c13-clear-keeps-value", ["C13", "C12"], (V, "        self.previous_value = nan\n        self.value = nan\n\n    def fuzzy_value", "        self.previous_value = nan\n\n    def fuzzy_value"), "OutputVariable.clear/value")
+mutant("seed-c19-counter-overwritten", "C19", (E, "                        mamdani_consequents += isinstance(", "                        mamdani_consequents = isinstance("), "C1-acc/Engine.is_ready/mamdani_consequents")
+mutant("seed-c19-conjunction-last-rule-only", "C19", (E, 'conjunction_needed += f" {Rule.AND} " in rule.antecedent.text', 'conjunction_needed = f" {Rule.AND} " in rule.antecedent.text'), "Engine.is_ready")
+mutant("seed-c18-int-plus-strict", "C18", [(X, "k = max(1, round(pow(values, (1.0 / inputs))))", "k = max(1, int(pow(values, (1.0 / inputs))))"), (X, "while (k + 1) ** inputs <= values:", "while (k + 1) ** inputs < values:")], "N1/")
+mutant("seed-c16-unload-after-tokenising", "C16", (R, """        self.unload()
+        if not self.text:
+            raise SyntaxError("expected the antecedent of a rule, but found none")
+
+        postfix = Function.infix_to_postfix(self.text)
+""", """        if not self.text:
+            self.unload()
+            raise SyntaxError("expected the antecedent of a rule, but found none")
+
+        postfix = Function.infix_to_postfix(self.text)
+        self.unload()
+"""), "O9/Antecedent.load/unload-first")
+mutant("seed-c20-skip-unchanged", "C20", (L, "        rollback_settings = vars(self).copy()\n        for key, value in context_settings.items():\n            setattr(self, key, value)", "        rollback_settings = vars(self).copy()\n        context_settings = {key: value for key, value in context_settings.items() if rollback_settings[key] != value}\n        for key, value in context_settings.items():\n            setattr(self, key, value)"), "Y4/Settings.context/named-keys")
